@@ -579,8 +579,9 @@ Drift(r) ==
 
 (* ================================================================= known-finding triggers =========== *)
 KnownTriggers == {"NoHeterozygousRowAtAll"}
-(* inputs on which the defects repaired in 142cc54, 0d7719f, bb2305d, c778dbd showed (kept as documentation) *)
-RepairedTriggers == {"SingleHetExplicitSide", "TumorBoostLabelsShifted", "NoTumourDepthAtAll", "EmptyTableLosesColumns"}
+(* inputs on which the defects repaired in 142cc54, 0d7719f, bb2305d, c778dbd, dbdf8d1 showed (kept as documentation) *)
+RepairedTriggers == {"SingleHetExplicitSide", "TumorBoostLabelsShifted", "NoTumourDepthAtAll", "EmptyTableLosesColumns",
+                     "DepthMissingInEveryRecord"}
 (* positions of the rows tumor_boost() is computed for are not their index labels *)
 LabelsShifted(rows) == \E j \in Idx(rows) : rows[j].lab # j - 1
 TriggerHolds(t, r) ==
@@ -605,5 +606,14 @@ TriggerHolds(t, r) ==
             /\ r.rows = <<>> /\ r.err # ""
             /\ (r.nrec = 0 \/ r.args.skiprej)
             /\ (r.op = "hets" \/ r.args.src = "hets" \/ r.args.skipsom)
+      [] t = "DepthMissingInEveryRecord" ->
+            (* DP is a FORMAT key but "." for one of the chosen samples in every record: read_vcf leaves that depth   *)
+            (* and frequency column object-typed, and _tumor_boost over it raises TypeError                           *)
+            /\ r.err # ""
+            /\ \/ /\ r.op = "hets" /\ r.args.tboost /\ r.sel.called /\ r.sel.nid # "" /\ r.vcf.recs # <<>>
+                  /\ \E n \in {r.sel.sid, r.sel.nid} :
+                         \A k \in Idx(r.vcf.recs) : r.vcf.recs[k].fdp /\ CallOf(r.vcf, r.vcf.recs[k], n).dp < 0
+               \/ /\ (r.op = "boost" \/ (r.op \in {"baf", "mirror"} /\ r.args.tboost)) /\ r.paired /\ r.rows # <<>>
+                  /\ ((\A j \in Idx(r.rows) : r.rows[j].dp = 0) \/ (\A j \in Idx(r.rows) : r.rows[j].ndp = 0))
       [] OTHER -> FALSE
 =============================================================================
